@@ -301,5 +301,83 @@ theorem hl_series (p : Nat) (hp : 1 ≤ p) (nm : String) (n : Nat) (hk : IsKey n
   obtain ⟨kl, b1, b2, b3, b4⟩ := stepCtx_lowest nm raw vs m hm hvs p hp
   exact ⟨_, hl_def (stepCtx nm raw vs m) p _ _ b3 a3, kl, kh, ⟨b1, b2⟩, ⟨a1, a2⟩, rfl, b4, a4⟩
 
+/-! ## Donchian -/
+
+/-- name hypotheses of a Donchian node: an ordinary key whose `DCU` field is addressed by a dotted name -/
+structure DcNames (nm : String) : Prop where
+  key : IsKey nm
+  dcu : splitDot (nm ++ ".DCU") = [nm, "DCU"]
+
+/-- the reading stored during warm-up -/
+def dcNone : Val K := .dict [("DCL", .none), ("DCM", .none), ("DCU", .none)]
+
+/-- what the whole-series theorem says of the Donchian reading at index `j`: all fields `None` up
+to index `p − 2`; from index `p − 1` on `DCL` / `DCU` hold the low / high of two candles `kl`, `kh`
+of the window `j−(p−1) … j` (the last `p` candles) with their type (an int stays an int, a float is
+rounded), whose values are the lowest low / highest high of that window, and `DCM` is the rounding
+of the mean of the two UNROUNDED bounds -/
+def DcOK (p n : Nat) (hN lN : Nat → Num K) (j : Nat) (v : Val K) : Prop :=
+  (j + 1 < p → v = dcNone) ∧
+  (p ≤ j + 1 → ∃ kl kh, (j - (p - 1) ≤ kl ∧ kl ≤ j) ∧ (j - (p - 1) ≤ kh ∧ kh ≤ j) ∧
+    v = .dict [("DCL", .num ((lN kl).roundBy n)),
+               ("DCM", .flt (PyF.round n (((hN kh).toF + (lN kl).toF) / 2))),
+               ("DCU", .num ((hN kh).roundBy n))] ∧
+    (lN kl).toF = winMin (fun k => (lN k).toF) j (p - 1) ∧ (hN kh).toF = winMax (fun k => (hN k).toF) j (p - 1))
+
+theorem stepCtx_prev_dcu (nm : String) (hn : DcNames nm) (raw : List (Candle K)) (vs : List (Val K)) (m : Nat)
+    (hm : m < raw.length) (hvs : vs.length = m) (hraw : ∀ c ∈ raw, Plain c) :
+    (stepCtx nm raw vs m).prevReading (nm ++ ".DCU")
+      = .ok (if m = 0 then .none else (vs.getD (m - 1) .none).nested "DCU") := by
+  unfold Ctx.prevReading
+  have hl := stepCtx_length nm raw vs m hm hvs
+  by_cases h0 : m = 0
+  · subst h0; simp [stepCtx]
+  · have h1 : ((stepCtx nm raw vs m).cs.length == 0) = false := by rw [hl]; simp
+    have h2 : ((stepCtx nm raw vs m).i == 0) = false := by simp [stepCtx]; omega
+    simp only [h1, h2, Bool.or_self, Bool.false_eq_true, if_false, h0]
+    have e : (stepCtx nm raw vs m).i - 1 = ((m - 1 : Nat) : Int) := by simp [stepCtx]; omega
+    rw [e]
+    unfold Ctx.reading
+    simp only [Option.getD_some]
+    rw [pyIndex_nonneg _ _ (by omega)]
+    simp only [Int.toNat_natCast]
+    rw [stepCtx_lt nm raw vs m hm hvs (m - 1) (by omega)]
+    simp only [getOrIndexError, pym_bind_ok, pym_pure]
+    unfold readingByCandle
+    rw [hn.dcu]
+    simp [setKey, dlookup_dset_self]
+
+/-- **C05 for the whole Donchian series**, period `p ≥ 2` (`p = 1` makes `movement.highest` return
+`False`).  `None` fields up to index `p − 2`, first reading at index `p − 1`, window = the last `p`
+candles. -/
+theorem donchian_series (p : Nat) (hp : 2 ≤ p) (nm : String) (n : Nat) (hn : DcNames nm)
+    (raw : List (Candle K)) (hraw : ∀ c ∈ raw, Plain c) :
+    ∃ vs : List (Val K), vs.length = raw.length ∧
+      rowMajor (mkTop (.donchian p) nm n) raw = .ok (deco nm raw vs) ∧
+      ∀ j, j < raw.length → DcOK p n (numAt (·.h) raw) (numAt (·.l) raw) j (vs.getD j .none) := by
+  refine series_induct (mkTop (.donchian p) nm n) nm rfl rfl raw _ ?_
+  intro m hm vs hvs hQ
+  change ∃ v, Calc.donchian (stepCtx nm raw vs m) p = .ok v ∧ DcOK p n _ _ m (v.roundBy n)
+  have hprev := stepCtx_prev_dcu nm hn raw vs m hm hvs hraw
+  have hper : (stepCtx nm raw vs m).readingPeriod (p : Int) "high" (some (stepCtx nm raw vs m).i) = decide (p ≤ m + 1) :=
+    stepCtx_period nm "high" (·.h) raw vs m hm hvs noDot_high (fun _ => rfl) p (by omega)
+  by_cases h1 : m + 1 < p
+  · have hpn : (stepCtx nm raw vs m).prevReading ((stepCtx nm raw vs m).name ++ ".DCU") = .ok .none := by
+      show (stepCtx nm raw vs m).prevReading (nm ++ ".DCU") = _
+      rw [hprev]
+      by_cases h0 : m = 0
+      · simp [h0]
+      · simp only [h0, if_false]
+        rw [(hQ (m - 1) (by omega)).1 (by omega)]
+        rfl
+    refine ⟨_, donchian_none _ p hpn (by rw [hper]; simp; omega), fun _ => rfl, fun h => by omega⟩
+  · have e : ((p : Int) - 1) = ((p - 1 : Nat) : Int) := by omega
+    obtain ⟨kh, a1, a2, a3, a4⟩ := stepCtx_highest nm raw vs m hm hvs (p - 1) (by omega)
+    obtain ⟨kl, b1, b2, b3, b4⟩ := stepCtx_lowest nm raw vs m hm hvs (p - 1) (by omega)
+    have hd := donchian_def (stepCtx nm raw vs m) p _ (numAt (·.h) raw kh) (numAt (·.l) raw kl)
+      (show (stepCtx nm raw vs m).prevReading (nm ++ ".DCU") = _ from hprev)
+      (Or.inr (by rw [hper]; simp; omega)) (by rw [e]; exact a3) (by rw [e]; exact b3)
+    exact ⟨_, hd, fun h => by omega, fun _ => ⟨kl, kh, ⟨b1, b2⟩, ⟨a1, a2⟩, rfl, b4, a4⟩⟩
+
 end Numeric
 end Hex
